@@ -247,7 +247,7 @@ func randIP(r *gen.Rand) net.IP {
 // step applies one random building operation. Returns false to stop the sequence.
 func (s *c03State) step() bool {
 	r, m := s.r, s.m
-	switch r.Intn(23) {
+	switch r.Intn(25) {
 	case 0, 1, 2, 3: // Add
 		t := r.AttrType()
 		n := r.ValueLen(3000)
@@ -581,6 +581,49 @@ func (s *c03State) step() bool {
 		}
 		if want := s.canonical(); !bytes.Equal(m.Raw, want) {
 			s.fail("not-canonical", fmt.Sprintf("Encode after truncating Attributes produced bytes that differ from the reference encoding (header length %d, %d bytes)", int(m.Raw[2])<<8|int(m.Raw[3]), len(m.Raw)))
+
+			return false
+		}
+	case 22: // drop an attribute anywhere in the struct's list (offsets shift), then Encode
+		if len(s.attrs) == 0 {
+			return true
+		}
+		k := r.Intn(len(s.attrs))
+		s.op(fmt.Sprintf("remove Attributes[%d];Encode", k))
+		m.Attributes = append(m.Attributes[:k:k], m.Attributes[k+1:]...)
+		s.attrs = append(s.attrs[:k:k], s.attrs[k+1:]...)
+		m.Encode()
+		s.lead, s.trail = 0, false
+		for i := range s.attrs {
+			s.attrs[i].built = true
+			s.attrs[i].wire = s.attrs[i].typ
+		}
+		if want := s.canonical(); !bytes.Equal(m.Raw, want) {
+			s.fail("not-canonical", "Encode after removing an attribute differs from the reference encoding")
+
+			return false
+		}
+	case 23: // hand-built attribute list (Length fields are documented as ignored while encoding), then Encode
+		n := r.Intn(5)
+		var list stun.Attributes
+		var sh []shAttr
+		total := 0
+		for k := 0; k < n; k++ {
+			t, v := r.AttrType(), r.Bytes(r.ValueLen(200))
+			total += 4 + (len(v)+3)/4*4
+			list = append(list, stun.RawAttribute{Type: stun.AttrType(t), Length: uint16(r.U64()), Value: append([]byte(nil), v...)})
+			sh = append(sh, shAttr{typ: t, wire: t, val: v, built: true})
+			if t == 0x8020 {
+				s.aliasAdded = true
+			}
+		}
+		s.op(fmt.Sprintf("Attributes=hand-built(%d);Encode", n))
+		m.Attributes = list
+		s.attrs = sh
+		m.Encode()
+		s.lead, s.trail = 0, false
+		if want := s.canonical(); !bytes.Equal(m.Raw, want) {
+			s.fail("not-canonical", "Encode of a hand-built attribute list differs from the reference encoding")
 
 			return false
 		}
